@@ -467,6 +467,18 @@ def _compare(base, other, side, strict_class=True):
                 "delivered) under the other")
     br, orr = base["rejected"], other["rejected"]
     after_close = False
+
+    def _closing(m):
+        if side != "server":
+            return False
+        conn = b",".join(v.lower() for n, v in m[2] if n.lower() == b"connection")
+        return b"close" in conn or (m[3] == (1, 0) and b"keep-alive" not in conn)
+
+    if (br is None) != (orr is None) and any(_closing(m) for m in base["msgs"] + other["msgs"]):
+        # a request that ends the connection (Connection: close, HTTP/1.0 without keep-alive) was accepted:
+        # what follows it is refused only when it arrives in the same read (DONT_CARE zone, as in C01)
+        br = orr = None
+        after_close = True
     if "Data_after_Connection" in (br or "") or "Data_after_Connection" in (orr or ""):
         # bytes after a request that said `Connection: close` are refused only when they arrive in
         # the same read; the connection is closed either way (DONT_CARE zone, as in C01)
